@@ -959,12 +959,6 @@ def check_c08(world):
             out.append(V('C08', 'stop_event_not_set', f'{nid}: stop event not set after run() (cause {cause} at {x})',
                          None, fin[1], **sig))
     exp = c08_expected(sc)
-    # a filter run with loop_exc=False swallows the PropagateError of an obeyed ERROR exit inside its loop (it still
-    # stops, because exit() set the stop event) and then announces 'clean' instead of 'error': runs in which such a filter
-    # obeys an error are marked, so that this one finding can be told apart
-    relay = any(nodes[n].get('loop_exc') is False and k2 == 'error' and n != x for n, (k2, why, d) in exp.items())
-    if relay:
-        sig['relay_loop_exc_false'] = True
     # X itself: returns for clean, raises for error
     if x in ended:
         want = 'run_return' if kind == 'clean' else 'run_raise'
